@@ -205,7 +205,7 @@ extern "C" void h_copy_available(void) {
 #if defined(VF_NATIVE) && defined(RING)
 extern "C" bool stub_DecompressCode_ring(HuffLZ* self) __asm__("_ZN10OP2Utility7Archive6HuffLZ14DecompressCodeEv");
 #endif
-static unsigned g_ring_calls;
+static unsigned g_ring_calls; static uint64_t g_ring_last_k; static bool g_ring_last_eos;
 extern "C" bool stub_DecompressCode_ring(HuffLZ* self) {
   uint64_t pending = (self->m_BuffWriteIndex - self->m_BuffReadIndex) & 0xFFF;
   vf_assert(self->m_BuffWriteIndex < 4096 && self->m_BuffReadIndex < 4096, "ring indices stay below 4096");
@@ -213,6 +213,7 @@ extern "C" bool stub_DecompressCode_ring(HuffLZ* self) {
   uint8_t k = vf_nondet_u8(); vf_assume(k >= 1 && k <= 60);
   self->m_BuffWriteIndex = (self->m_BuffWriteIndex + k) & 0xFFF;
   bool eos = vf_nondet_u8() & 1;
+  g_ring_last_k = k; g_ring_last_eos = eos;
   if (++g_ring_calls == 2) { VF_WITNESS(); vf_end(); }      // the second call starts from a state the arbitrary pre-state already covers
   return eos;
 }
@@ -244,5 +245,79 @@ extern "C" void h_internal_buffer_step(void) {
   vf_assert(r + n <= 4096, "the returned range lies inside the window");
   vf_assert((n == 0) == (r == w), "length 0 (the end-of-stream signal) exactly when nothing is pending");
   vf_assert(d.m_BuffReadIndex == ((r + n) & 0xFFF) && d.m_BuffWriteIndex == w, "the read index advances by the bytes handed out, modulo 4096; the write index is untouched");
+  VF_WITNESS();
+}
+
+// ---------- R2: the copying drain.  CopyAvailableData from ARBITRARY ring indices and ANY request size.  In the solver its (variable-length)
+// memcpy calls are replaced by a recording hook (ir2c --memcpy-hook), so the window contents never enter the formula: the recorded
+// (destination, source, length) triples must tile the caller's buffer in order with the ring's pending bytes.  The native replay runs the
+// real memcpy over a position-revealing window and compares the bytes delivered.
+struct CopyRec { const char* d; const char* s; uint64_t n; };
+static CopyRec g_cp[4]; static unsigned g_ncp;
+extern "C" void stub_memcpy_ring(char* d, char* s, uint64_t n) { vf_assert(g_ncp < 4, "at most one copy before and one after the wrap"); g_cp[g_ncp].d = d; g_cp[g_ncp].s = s; g_cp[g_ncp].n = n; g_ncp++; }
+static inline uint8_t ring_pattern(uint64_t idx) { return (uint8_t)(idx * 7 + (idx >> 8) + 3); }
+extern "C" void h_copy_ring(void) {
+  g_may_throw = false; g_ncp = 0;
+  uint8_t in[1] = { 0 };
+  HuffLZ d(BitStreamReader(in, 1));
+  uint64_t r = vf_nondet_u64(), w = vf_nondet_u64(); vf_assume(r < 4096 && w < 4096);
+  uint64_t n = vf_nondet_u64();                       // any request size
+  d.m_BuffReadIndex = r; d.m_BuffWriteIndex = w;
+  static char out[4096 + 16];
+#ifdef VF_NATIVE
+  for (unsigned i = 0; i < 4096; i++) d.m_DecompressBuffer[i] = (char)ring_pattern(i);
+  memset(out, 0xEE, sizeof out);
+#endif
+  const uint64_t pending = (w - r) & 4095, want = n < pending ? n : pending;
+  uint64_t got = d.CopyAvailableData(out, n);
+  vf_assert(got == want, "delivers min(requested, pending) bytes");
+  vf_assert(d.m_BuffReadIndex == ((r + want) & 4095) && d.m_BuffWriteIndex == w, "the read index advances by the bytes delivered modulo 4096; the write index is untouched");
+#ifdef VF_NATIVE
+  for (uint64_t i = 0; i < sizeof out; i++) vf_assert((uint8_t)out[i] == (i < want ? ring_pattern((r + i) & 4095) : 0xEE), "bytes come from the ring in order starting at the read index; nothing is written past them");
+#else
+  uint64_t pos = r, o = 0;
+  for (unsigned k = 0; k < 4; k++) {
+    if (k >= g_ncp) break;
+    if (g_cp[k].n == 0) continue;
+    vf_assert(g_cp[k].d == out + o, "copies fill the caller's buffer contiguously from its start");
+    vf_assert(g_cp[k].s == &d.m_DecompressBuffer[0] + (pos & 4095), "each copy starts where the previous one ended in the ring, beginning at the read index");
+    vf_assert((pos & 4095) + g_cp[k].n <= 4096, "no copy reads past the end of the window");
+    pos += g_cp[k].n; o += g_cp[k].n;
+  }
+  vf_assert(o == want, "together the copies deliver exactly min(requested, pending) bytes - nothing is written past the request");
+#endif
+  VF_WITNESS();
+}
+
+// ---------- R3: GetData over the same two contracts: from ARBITRARY ring indices, ANY request size, with at most one code decoded (the
+// second DecompressCode call ends the path: its pre-state is again an arbitrary ring state).  Copies are recorded as in R2.
+extern "C" void h_getdata_ring(void) {
+  g_may_throw = false; g_ncp = 0; g_ring_calls = 0; g_ring_last_k = 0; g_ring_last_eos = false;
+  uint8_t in[1] = { 0 };
+  HuffLZ d(BitStreamReader(in, 1));
+  uint64_t r = vf_nondet_u64(), w = vf_nondet_u64(); vf_assume(r < 4096 && w < 4096);
+  bool eos0 = vf_nondet_u8() & 1;
+  uint64_t n = vf_nondet_u64();
+  d.m_BuffReadIndex = r; d.m_BuffWriteIndex = w; d.m_EOS = eos0;
+  static char out[4096 + 128];
+  const uint64_t pending0 = (w - r) & 4095;
+  uint64_t got = d.GetData(out, n);
+  // complete paths decode at most one code (k bytes appended)
+  const uint64_t avail = pending0 + (g_ring_calls ? g_ring_last_k : 0);
+  // (avail may exceed the ring's capacity: the drain and the refill interleave)
+  vf_assert(got == (n < avail ? n : avail), "GetData delivers min(requested, everything available up to the end of the stream)");
+  if (got < n) vf_assert(d.m_EOS, "a short delivery happens only at the end of the stream");
+  vf_assert(d.m_BuffReadIndex == ((r + got) & 4095), "the read index advances by the bytes delivered");
+#ifndef VF_NATIVE
+  uint64_t pos = r, o = 0;
+  for (unsigned k = 0; k < 4; k++) {
+    if (k >= g_ncp) break;
+    if (g_cp[k].n == 0) continue;
+    vf_assert(g_cp[k].d == out + o, "copies fill the caller's buffer contiguously from its start");
+    vf_assert(g_cp[k].s == &d.m_DecompressBuffer[0] + (pos & 4095) && (pos & 4095) + g_cp[k].n <= 4096, "each copy continues in ring order from the read index, inside the window");
+    pos += g_cp[k].n; o += g_cp[k].n;
+  }
+  vf_assert(o == got, "together the copies deliver exactly the returned count - nothing is written past the request");
+#endif
   VF_WITNESS();
 }
